@@ -274,6 +274,7 @@ MUST_REJECT = [
     "void {n}(", "void {n})", "int {n}(int) extra", "void {n}(int a) const const", "void {n}(int *a +bogus_attr)",
     "int *{n}(void) +free_pattern(undefined_pattern)", "void {n}(int *a +len([3)", "void {n}(int a;)",
     "void {n}(int a,)", "void {n}(int a = )", "void {n}(int a, int a)",
+    "void {n}(int *a +rank(0)+dimension(3))", "int *{n}(void) +rank(0)+dimension(3)", "void {n}(double *a +rank(2)+dimension(3,4))",
 ]
 
 # an invalid declaration placed after a valid one that carries the same attribute text (a check that remembers
